@@ -183,11 +183,7 @@ theorem lastfail_wraparound_still_done : subWrap 1 = two64 - 1 ∧ subWrap 1 % 2
 theorem any_no_crash (hwf : w.wf) (ha : IsAny w) (h : Reachable w s) :
     s.crashed = false ∧ (∀ i, s.pc i ≠ .boom ∧ s.pc i ≠ .dboom) ∧ ∀ o, o ∈ s.outSet → o ≠ .broken := by
   have hB := invb_reachable hwf h
-  have hne : w.strat ≠ .allTuple true := by rcases ha with ha | ha | ha <;> simp [ha]
-  refine ⟨?_, fun i => ⟨fun hp => hne (hB.boom_tuple i hp), hB.no_dboom i⟩, ?_⟩
-  · cases hc : s.crashed with
-    | false => rfl
-    | true => exact absurd (hB.crashed_tuple hc) hne
+  refine ⟨hB.not_crashed, fun i => ⟨hB.no_boom i, hB.no_dboom i⟩, ?_⟩
   · intro o ho hb
     obtain ⟨k, _, hk⟩ := (any_set_once hwf ha h).2 o ho
     rw [hb] at hk; cases hk
